@@ -222,6 +222,8 @@ def run_shard(args):
                 for fn in sorted(os.listdir(rdir)):
                     if not fn.endswith(".json"):
                         continue
+                    if getattr(chk, "REGRESS_PREFIX", None) and not fn.startswith(chk.REGRESS_PREFIX):
+                        continue        # (several check classes share one property's directory)
                     with open(os.path.join(rdir, fn)) as f:
                         case = json.load(f)["case"]
                     st.regress_replayed += 1
